@@ -138,6 +138,18 @@ def fn_writes(path, fname, members):
     return out
 
 
+def fn_calls(path, names):
+    """identifiers that are CALLED (followed by '(') in the bodies of the named functions, excluding control keywords"""
+    toks = tokens(strip(open(path, errors="replace").read()))
+    out = set()
+    for ret, name, params, body in functions(toks):
+        if name.split("::")[-1] in names:
+            for i, t in enumerate(body[:-1]):
+                if IDENT.match(t) and body[i + 1] == "(" and t not in ("if", "for", "while", "switch", "return", "sizeof", "catch", "delete", "new"):
+                    out.add(name.split("::")[-1] + ":" + t)
+    return out
+
+
 def generate(repo):
     src = os.path.join(repo, "src")
     ih = data_members(class_body(tokens(strip(open(os.path.join(src, "IPhreeqc.hpp")).read())), "IPhreeqc"))
@@ -158,6 +170,7 @@ def generate(repo):
            "Definition update_errors_mentions : list string := %s." % q(sorted(x for x in ip.get("update_errors", ()) if x in ih)),
            "Definition listcomponents_mentions : list string := %s." % q(sorted(x for x in ip.get("ListComponents", ()) if x in ih)),
            "Definition unload_calls : list string := %s." % q(sorted(x for x in ip.get("UnLoadDatabase", ()) if x in ("clean_up", "init", "do_initialize", "Clear", "clear", "ClearAccumulatedLines"))),
+           "Definition reset_path_calls : list string := %s." % q(sorted(fn_calls(os.path.join(src, "phreeqcpp", "structures.cpp"), {"clean_up"}) | fn_calls(os.path.join(src, "phreeqcpp", "mainsubs.cpp"), {"initialize", "do_initialize"}) | fn_calls(os.path.join(src, "IPhreeqc.cpp"), {"UnLoadDatabase"}))),
            "Definition phreeqc_members : list string := %s." % q(ph),
            "Definition phreeqc_not_reset : list string := %s." % q(sorted(set(m for m in ph if m not in reset))), ""]
     return "\n".join(out)
